@@ -192,6 +192,7 @@ func (m *MatMul) batchedMatMul(A, B tensor.Tensor) (tensor.Tensor, error) {
 	outShape := append([]int{}, outerShape...)
 	outShape = append(outShape, shapeA[len(shapeA)-2], shapeB[len(shapeB)-1])
 	out := tensor.New(tensor.WithShape(outShape...), tensor.Of(A.Dtype()))
+	nOutRows, nOutCols := outShape[len(outShape)-2], outShape[len(outShape)-1]
 
 	// Create slices to extract the matrices from the tensors.
 	slices := make([]tensor.Slice, len(outerShape))
@@ -201,27 +202,52 @@ func (m *MatMul) batchedMatMul(A, B tensor.Tensor) (tensor.Tensor, error) {
 
 	var err error
 
-	var matrixA, matrixB, matrixOut tensor.Tensor
+	var matrixA, matrixB tensor.Tensor
+
+	var matrixOut tensor.View
 
 	for {
-		matrixA, err = A.Slice(slices...)
+		matrixA, err = m.matrixAt(A, slices)
 		if err != nil {
 			return nil, err
 		}
 
-		matrixB, err = B.Slice(slices...)
+		matrixB, err = m.matrixAt(B, slices)
 		if err != nil {
 			return nil, err
 		}
 
-		matrixOut, err = out.Slice(slices...)
-		if err != nil {
-			return nil, err
-		}
+		if nOutRows*nOutCols == 1 {
+			// The slice of a single element is a scalar, which cannot be reused as output
+			// matrix: compute the product and store its only element.
+			product, err := tensor.MatMul(matrixA, matrixB)
+			if err != nil {
+				return nil, err
+			}
 
-		_, err = tensor.MatMul(matrixA, matrixB, tensor.WithReuse(matrixOut))
-		if err != nil {
-			return nil, err
+			value, err := product.At(0, 0)
+			if err != nil {
+				return nil, err
+			}
+
+			coords := make([]int, 0, len(outShape))
+			for _, slice := range slices {
+				coords = append(coords, slice.Start())
+			}
+
+			if err = out.SetAt(value, append(coords, 0, 0)...); err != nil {
+				return nil, err
+			}
+		} else {
+			matrixOut, err = out.Slice(slices...)
+			if err != nil {
+				return nil, err
+			}
+
+			_, err = tensor.MatMul(matrixA, matrixB, tensor.WithReuse(matrixOut))
+			if err != nil {
+				return nil, err
+			}
 		}
 
 		incrementSucceeded := incrementSlices(slices, outerShape)
@@ -231,6 +257,30 @@ func (m *MatMul) batchedMatMul(A, B tensor.Tensor) (tensor.Tensor, error) {
 	}
 
 	return out, nil
+}
+
+// matrixAt returns the matrix of t (its 2 trailing dimensions) selected by the given slices of
+// the leading dimensions. Slicing turns a matrix of a single element into a scalar, in that
+// case the matrix shape is restored.
+func (m *MatMul) matrixAt(t tensor.Tensor, slices []tensor.Slice) (tensor.Tensor, error) {
+	matrix, err := t.Slice(slices...)
+	if err != nil {
+		return nil, err
+	}
+
+	// A matrix has 2 dimensions.
+	if nDims := 2; len(matrix.Shape()) == nDims {
+		return matrix, nil
+	}
+
+	shape := t.Shape()
+	restored := matrix.Materialize()
+
+	if err := restored.Reshape(shape[len(shape)-2], shape[len(shape)-1]); err != nil {
+		return nil, err
+	}
+
+	return restored, nil
 }
 
 // incrementSlices increments all slice by 1. It is used to extract the next matrices
